@@ -151,8 +151,13 @@ UNITS = [swapbytes, read2, read4, read8, sb_put, file_put, sock_put, file_get, s
 # The Array is (x_data, x_len); bounded: at most 3 elements (every branch and the per-element loop are exercised).
 WIRE_A = WIRE.replace('g_wire[16]', 'g_wire[32]').replace('g_wn + n <= 16', 'g_wn + n <= 32')
 def array_writer(name, file, loc, put_loc, put_rules, fn):
-    rules = [(r'foreach\s*\(const T& y, x\)\s*\*this << y;', 'for (int vf_i = 0; vf_i < x_len; vf_i++) Stream_put(self, &x_data[vf_i]);', 1),
-             (r'&x\[0\]', 'x_data', None), (r'x\.length\(\)', 'x_len', None), (r'x\.data\(\)', 'x_data', None), (r'sizeof\(T\)', 'sizeof(TT)', None),
+    # an Array<T> handle is modelled as (name_data, name_len); copying a handle shares the storage (Array(const Array&): C01)
+    rules = [(r'foreach\s*\(const T& y, x\)\s*\*this << y;', 'for (int vf_i = 0; vf_i < x_len; vf_i++) Stream_put(self, &x_data[vf_i]);', None),
+             (r'\bArray<T> (\w+) = (\w+);', r'TT* \1_data = (TT*)\2_data; int \1_len = \2_len;', None),
+             (r'\*this << (\w+)\[(\w+)\];', r'Stream_put(self, &\1_data[\2]);', None),
+             (r'swapBytes\((\w+)\[(\w+)\]\)', r'swapBytes(&\1_data[\2])', None),
+             (r'&(\w+)\[0\]', r'\1_data', None), (r'\b(\w+)\.length\(\)', r'\1_len', None), (r'\b(\w+)\.data\(\)', r'\1_data', None),
+             (r'sizeof\(T\)', 'sizeof(TT)', None),
              (r'\bwrite\(', 'vf_write(', None), (r'\bendian\(\)', 'self->_endian', None), (r'return \*this;', 'return;', None)]
     return Unit(
         name, 'C16',
